@@ -717,8 +717,16 @@ fn process_chunk(ctx: &mut Ctx, prop: Prop, dir: &Path, items: &[Item], n: usize
                         if o.kind != "User" || o.user.as_ref() != Some(ue) {
                             ctx.violation(&format!("{}-action-error-lost", cg.name()), format!("{}: expected User({}), got {}", head, ue, o.short()), case(o));
                         } else {
-                            if o.log != e.log {
-                                ctx.violation(&format!("{}-actions-after-action-error", cg.name()), format!("{}: expected log {:?}, got {:?}", head, e.log, o.log), case(o));
+                            // C17 says nothing runs AFTER the failing action; the order of the
+                            // actions before it is C02's and C14's business (with two different
+                            // inlined nonterminals in one alternative it is the recorded finding
+                            // F13). So: every action that ran must be one the reference runs up
+                            // to the error; the generic marker oracle above has already checked
+                            // that the failing action is the last one.
+                            let mut pool = e.log.clone();
+                            let extra: Vec<u32> = o.log.iter().filter(|x| match pool.iter().position(|y| y == *x) { Some(i) => { pool.remove(i); false } None => true }).copied().collect();
+                            if !extra.is_empty() {
+                                ctx.violation(&format!("{}-actions-after-action-error", cg.name()), format!("{}: actions {:?} ran although the reference stops with log {:?} (got {:?})", head, extra, e.log, o.log), case(o));
                             }
                             if o.pulled > e.max_pulled {
                                 ctx.violation(&format!("{}-reads-past-action-error", cg.name()), format!("{}: pulled {} tokens, at most {} needed", head, o.pulled, e.max_pulled), case(o));
